@@ -33,3 +33,16 @@ func WriteFileAtomic(tmpDir, path string, data []byte) error {
 	}
 	return nil
 }
+
+// CreateWorkingFile creates (or empties) the working-tree file at path for writing. What lies there now may be
+// another name of something else: a symbolic link -- writing through it would change the file it points to,
+// which may be another tracked file, a file outside the working tree or a file inside .goit -- or one of several
+// hard links to a file. So anything there that is not a directory is removed first and the file made afresh.
+func CreateWorkingFile(path string) (*os.File, error) {
+	if fi, err := os.Lstat(path); err == nil && !fi.IsDir() {
+		if err := os.Remove(path); err != nil {
+			return nil, err
+		}
+	}
+	return os.Create(path)
+}
